@@ -209,5 +209,12 @@ IntendedState ==
      /\ (c.created /\ ~c.dead) => (r.uc = c.uk /\ r.rc = c.rk /\ ~r.deact)
      /\ c.dead => r.deact
 
+(* Stamping in isolation: whatever the transaction's reference fields are (a canonical reference may be absent while  *)
+(* equivalent references are present) and whatever the operation handed back by the provider already carries, the    *)
+(* stored operation carries exactly THE TRANSACTION'S values.                                                        *)
+StampCases == [canon : BOOLEAN, neq : {0, 1, 2}, stale : BOOLEAN, t : {7}, n : {3}, ver : {0, 10}]
+StampExpected(c) == [ref |-> IF c.canon THEN "txn-canonical" ELSE "", neq |-> c.neq, t |-> c.t, n |-> c.n, ver |-> c.ver]
+ASSUME PrintT("STAMP " \o ToJson({[c |-> x, out |-> StampExpected(x)] : x \in StampCases}))
+
 Emit == (Len(hist) = MaxSteps) => PrintT("CASE " \o ToJson([hist |-> hist]))
 =============================================================================
